@@ -143,38 +143,70 @@ def clause_a(c: Check):
 
 # ---------------------------------------------------------------- b
 def clause_b(c: Check):
-    ix = c.ix
-    chains = [
-        ('Disjunction', 'DisjunctionDdv', 'Disjunction'),
-        ('Conjunction', 'ConjunctionDdv', 'Conjunction'),
-    ]
-    for sdv_name, ddv_name, prim_name in chains:
-        sdv = ix.cls(CS + ':' + sdv_name)
-        res = ix.class_member(sdv, 'resolve')
-        r = single_return_expr(res)
-        d = ix.callee(res.module, res, r) if isinstance(r, ast.Call) else None
-        ok = isinstance(d, ClassDef) and d.key == CM + ':' + ddv_name
-        ok = ok and _is_order_preserving_map(r.args[0], 'self._operands')
-        c.expect(bool(ok), 'C06-b', 'chain/%s/sdv->ddv' % sdv_name,
-                 '%s.resolve builds %s over %s' % (sdv_name, getattr(d, 'key', None), unparse(r.args[0]) if isinstance(r, ast.Call) and r.args else '?'),
-                 res.loc())
-        ddv = ix.cls(CM + ':' + ddv_name)
-        v = ix.class_member(ddv, 'value_of_any_dependency')
-        r = single_return_expr(v)
-        ok = isinstance(r, ast.Call) and r.args and getattr(ix.resolve_static(v.module, v, r.args[0]), 'key', None) == CM + ':' + prim_name \
-             and unparse(r.args[1]) == 'self._operands'
-        c.expect(bool(ok), 'C06-b', 'chain/%s/ddv->adv' % sdv_name,
-                 '%s does not make a %s of its operands' % (ddv_name, prim_name), v.loc())
+    """operator -> meaning through the SDV / DDV / ADV / primitive layers, evaluated on explicit operand lists: each
+    layer builds the next from its operands one by one in the given order"""
+    from .common import mapped_in_order
+    ix, fo = c.ix, c.fo
+
+    class H(Hooks):
+        def inline(self, fd, st):
+            return fd.module.name == CM and fd.name == 'of'
+
+        def inline_class(self, cd, st):
+            return False
+
+    def run_layer(cls, meth_name, attr):
+        f = ix.class_member(cls, meth_name)
+        it = Interp(ix, fo, H())
+        st = State()
+        obj = it.new_obj(cls)
+        xs = [Sym('operand%d' % i, nullness=False) for i in range(3)]
+        st.heap[(obj.oid, attr)] = ListVal(list(xs))
+        paths = it.run_function(f, {}, st, recv=obj)
+        return f, xs, paths
+
+    for name in ('Disjunction', 'Conjunction'):
+        # SDV -> DDV
+        sdv = ix.cls(CS + ':' + name)
+        f, xs, paths = run_layer(sdv, 'resolve', '_operands')
+        ok = len(paths) == 1 and paths[0].kind == 'return'
+        if ok:
+            con = util.constructed(ix, paths[0].val)
+            ok = con is not None and con[0] == CM + ':' + name + 'Ddv' and bool(con[1]) \
+                 and mapped_in_order(paths[0], con[1][0], xs, 'resolve')
+        c.expect(bool(ok), 'C06-b', 'chain/%s/sdv->ddv' % name,
+                 '%s.resolve does not build %sDdv of its operands, resolved one by one in the given order' % (name, name), f.loc())
+        # DDV -> ADV
+        ddv = ix.cls(CM + ':' + name + 'Ddv')
+        f, xs, paths = run_layer(ddv, 'value_of_any_dependency', '_operands')
+        ok = len(paths) == 1 and paths[0].kind == 'return'
+        if ok:
+            con = util.constructed(ix, paths[0].val)
+            ok = con is not None and con[0] == CM + ':_SequenceOfOperandsAdv' and len(con[1]) >= 2
+            if ok:
+                mk = con[1][0]
+                ok = isinstance(mk, K) and isinstance(mk.v, Ref) and getattr(mk.v.d, 'key', None) == CM + ':' + name \
+                     and mapped_in_order(paths[0], con[1][1], xs, 'value_of_any_dependency')
+        c.expect(bool(ok), 'C06-b', 'chain/%s/ddv->adv' % name,
+                 '%sDdv does not make a %s of its operands in the given order' % (name, name), f.loc())
+    # ADV -> primitive
     adv = ix.cls(CM + ':_SequenceOfOperandsAdv')
-    of = ix.class_member(adv, 'of')
-    r = single_return_expr(of)
-    ok = isinstance(r, ast.Call) and len(r.args) >= 2 and unparse(r.args[0]) == 'make_matcher' \
-         and _is_order_preserving_map(r.args[1], 'operands')
-    c.expect(bool(ok), 'C06-b', 'chain/adv.of', 'the ADV layer does not keep the operands in order', of.loc())
-    prim = ix.class_member(adv, 'primitive')
-    r = single_return_expr(prim)
-    ok = isinstance(r, ast.Call) and unparse(r.func) == 'self._make_matcher' and _is_order_preserving_map(r.args[0], 'self._operands')
-    c.expect(bool(ok), 'C06-b', 'chain/adv.primitive', 'the primitive is not made of the operands in order', prim.loc())
+    f, xs, paths = run_layer(adv, 'primitive', '_operands')
+    ok = len(paths) == 1 and paths[0].kind == 'return'
+    if ok:
+        o = paths[0].val.origin if isinstance(paths[0].val, Sym) else None
+        ok = bool(o) and o[0] == 'call' and bool(o[2]) and mapped_in_order(paths[0], o[2][0], xs, 'primitive')
+        if ok:
+            cv = paths[0].trace[o[5]].data.get('callee_val')
+            ok = util.attr_chain(cv)[1] == ('_make_matcher',)
+    c.expect(bool(ok), 'C06-b', 'chain/adv.primitive', 'the primitive is not made by the stored maker of the operands\' '
+                                                      'primitives in the given order', f.loc())
+    init = ix.class_member(adv, '__init__')
+    names = [p.arg for p in init.positional_params()[1:]]
+    ok = True
+    for attr, want in (('_make_matcher', names[0]), ('_operands', names[1])):
+        ok = ok and any(isinstance(v, ast.Name) and v.id == want for meth, v, st_ in ix.self_attr_assignments(adv, attr))
+    c.expect(ok, 'C06-b', 'chain/adv.of', 'the ADV layer does not keep its maker and operands as given', adv.loc())
     # negation chain
     nsdv = ix.cls(CS + ':Negation')
     r = single_return_expr(ix.class_member(nsdv, 'resolve'))
